@@ -18,7 +18,7 @@ RULE = ("case 'exp' = (matrix, ordered pair of writers (w1, w2) out of arxml, cs
         "Matrices include long names (> 32 characters), free signals, cycle times, duplicate frame names, receiver lists not yet "
         "propagated to the frames, multiplex groups with many values, attributes with definitions. quick: every ordered pair on 1 "
         "matrix per shard + random pairs; thorough: every ordered pair on 20 matrices. case 'seeds' = the same exports in "
-        "The 'seeds' case also exports every matrix in the long-running process after a variant of it (same names, other value texts, comments, units) and compares with a fresh process. The process state decoding depends on (decimal context) is compared before and after every export; comments over two lines occur. subprocesses under 6 (thorough: 12) values of PYTHONHASHSEED, always including a frame with 15 multiplex groups. One matrix in seven has a frame whose length was never set (0) although it has signals. Further configurations of the writers (options of formats.dump: csv delimiters, bit notations and attribute columns of csv/xls/json, encodings of dbc/dbf/sym, dbc without compatibility names and value tables, arxml 3, json native types) are paired with every configuration of the same format in both orders and with random configurations. Matrices also have frames of their own named VECTOR__INDEPENDENT_SIG_MSG (with and without signals without frame), the ECU name Vector__XXX as a transmitter/receiver, definitions of their own under the names the writers define (GenMsgCycleTime, VFrameFormat, GenSigStartValue, System...LongSymbol, BusType) and texts outside ASCII. 'unchanged' also compares what the matrix answers to lookups by name and identifier (frame_by_name, get_frame_by_name, frame_by_id, get_frame_by_id, ecu_by_name, for every name/identifier in the matrix, the reserved ones and all keys of the lookup dictionaries); decoding is also done through CanMatrix.decode. Every 'exp' case starts from the decimal context of a fresh interpreter. In the 'seeds' case every subprocess has its own export history (listed order, reverse order, shuffles of the (configuration, matrix) pairs) and the long-running process exports a variant with every other configuration of the same writer first. One number occurs in several spellings in one matrix (0.5 and 0.50, 1 and 1.00, 100 and 1E+2) and in the variants (every number respelled); the signals of a multiplexed frame are listed in any order and frames carry sym's Sendable/Receivable attributes, so that the writers visit the numbers in different orders. Every export an 'exp' case makes in the long-running process (w1, w1 on a fresh copy, w2 after w1, w2 on a fresh copy) is compared with the same export made ALONE in a fresh process (lib/export_worker.py --serve: a process that has done the imports and exported nothing forks one child per run), and a fresh process with a history of its own (variant to w1, matrix to w1, the same object to w2) is compared with them too (thorough: every case; quick: every random case and a quarter of the exhaustive pairs per shard, rotating). Matrices also have the rarely filled parts (45 %): PDUs inside frames with signals and signal groups of their own (frame.pdus, as the arxml reader keeps container I-PDUs; also frames that are nothing but the container and decode through their header signals), PDU name and header id, signal groups, names and comments per multiplexer value, named value tables, environment variables, baud rates, start values, cycle times and value-table names of signals. 'unchanged' also compares the whole object graph under the matrix field by field without a list of known fields (`everything`: every attribute of every reachable object, list and dictionary orders, types and spellings of numbers, which places hold the same object; only CanMatrix's lookup tables are left to the lookups), and decoding covers the nested results of container frames. Every 'exp' case exports the matrix to w1 once more, alone in a fresh process that runs in ANOTHER ENVIRONMENT (c.env: time zone out of five incl. LINT-14 and AOE12 which are never on the same date, clock moved by 0 / 7 h / 3 days / -400 days / 10 years for everything that reads it through time or datetime, other user/home/host name, working directory, locale) and demands the bytes of the export made alone here; in the 'seeds' case every subprocess has its own environment as well as its own hash seed and history (the first two in the two time zones 26 hours apart). Four matrices in ten have families of frame and signal names that are no identifiers and become one name under a cleaning a writer may apply for its file (Temp.Out / Temp_Out / Temp-Out / 'Temp Out', Temp_Out / TEMP_OUT, anywhere in the matrix: two signals of a frame, signals of different frames, a frame and a signal; one member may really carry the cleaned name). Non-trivial = every distinct case (each exercises >= 1 writer).")
+        "The 'seeds' case also exports every matrix in the long-running process after a variant of it (same names, other value texts, comments, units) and compares with a fresh process. The process state decoding depends on (decimal context) is compared before and after every export; comments over two lines occur. subprocesses under 6 (thorough: 12) values of PYTHONHASHSEED, always including a frame with 15 multiplex groups. One matrix in seven has a frame whose length was never set (0) although it has signals. Further configurations of the writers (options of formats.dump: csv delimiters, bit notations and attribute columns of csv/xls/json, encodings of dbc/dbf/sym, dbc without compatibility names and value tables, arxml 3, json native types) are paired with every configuration of the same format in both orders and with random configurations. Matrices also have frames of their own named VECTOR__INDEPENDENT_SIG_MSG (with and without signals without frame), the ECU name Vector__XXX as a transmitter/receiver, definitions of their own under the names the writers define (GenMsgCycleTime, VFrameFormat, GenSigStartValue, System...LongSymbol, BusType) and texts outside ASCII. 'unchanged' also compares what the matrix answers to lookups by name and identifier (frame_by_name, get_frame_by_name, frame_by_id, get_frame_by_id, ecu_by_name, for every name/identifier in the matrix, the reserved ones and all keys of the lookup dictionaries); decoding is also done through CanMatrix.decode. Every 'exp' case starts from the decimal context of a fresh interpreter. In the 'seeds' case every subprocess has its own export history (listed order, reverse order, shuffles of the (configuration, matrix) pairs) and the long-running process exports a variant with every other configuration of the same writer first. One number occurs in several spellings in one matrix (0.5 and 0.50, 1 and 1.00, 100 and 1E+2) and in the variants (every number respelled); the signals of a multiplexed frame are listed in any order and frames carry sym's Sendable/Receivable attributes, so that the writers visit the numbers in different orders. Every export an 'exp' case makes in the long-running process (w1, w1 on a fresh copy, w2 after w1, w2 on a fresh copy) is compared with the same export made ALONE in a fresh process (lib/export_worker.py --serve: a process that has done the imports and exported nothing forks one child per run), and a fresh process with a history of its own (variant to w1, matrix to w1, the same object to w2) is compared with them too (thorough: every case; quick: every random case and a quarter of the exhaustive pairs per shard, rotating). Matrices also have the rarely filled parts (45 %): PDUs inside frames with signals and signal groups of their own (frame.pdus, as the arxml reader keeps container I-PDUs; also frames that are nothing but the container and decode through their header signals), PDU name and header id, signal groups, names and comments per multiplexer value, named value tables, environment variables, baud rates, start values, cycle times and value-table names of signals. 'unchanged' also compares the whole object graph under the matrix field by field without a list of known fields (`everything`: every attribute of every reachable object, list and dictionary orders, types and spellings of numbers, which places hold the same object; only CanMatrix's lookup tables are left to the lookups), and decoding covers the nested results of container frames. Every 'exp' case exports the matrix to w1 once more, alone in a fresh process that runs in ANOTHER ENVIRONMENT (c.env: time zone out of five incl. LINT-14 and AOE12 which are never on the same date, clock moved by 0 / 7 h / 3 days / -400 days / 10 years for everything that reads it through time or datetime, other user/home/host name, working directory, locale) and demands the bytes of the export made alone here; in the 'seeds' case every subprocess has its own environment as well as its own hash seed and history (the first two in the two time zones 26 hours apart). Four matrices in ten have families of frame and signal names that are no identifiers and become one name under a cleaning a writer may apply for its file (Temp.Out / Temp_Out / Temp-Out / 'Temp Out', Temp_Out / TEMP_OUT, anywhere in the matrix: two signals of a frame, signals of different frames, a frame and a signal; one member may really carry the cleaned name). 35 % of the matrices have factors, offsets, limits and start values with many significant digits (powers of two like 0.001953125, 28-digit quotients like 1/3, 64 bit start values), next to the 64 bit signals; decoding compares the raw, physical and named value of every signal and the frame encoded again from the physical values; the process state also covers decimal.DefaultContext, the results of a 28-digit quotient and product, locale, working directory, recursion limit and os.environ. Non-trivial = every distinct case (each exercises >= 1 writer).")
 EXHAUSTIVE = {"quick": False, "thorough": False}
 PARTIAL = ["the writers' footprint on their argument is recorded in the model by hand (copiesFirst/normalise); that the record is complete "
            "is established only by this correspondence check - the theorems carry least here",
@@ -91,7 +91,45 @@ def variant_of(d):
 
 def gen_own(rng, **kw):
     """the descriptions of C14's own streams"""
-    return gen_rare(rng, gen_desc(rng, own_names=True, spellings=True, listing=True, related=True, **kw))
+    return long_numbers(rng, gen_rare(rng, gen_desc(rng, own_names=True, spellings=True, listing=True, related=True, **kw)))
+
+
+# numbers as files really have them, besides the short ones of lib.matrices (at most four digits): powers of two, quotients that the
+# arxml / fibex readers compute with the 28 digits of a Decimal, numbers with seven to twenty significant digits, exponent forms.
+# A writer that shortens, rounds or reformats a number for its file does so for its file only.
+LONG_FACTORS = ["0.001953125", "0.0078125", "0.00390625", "0.0000152587890625", "0.3333333333333333333333333333", "0.1428571428571428571428571429",
+                "1.0000001", "3.141592653589793", "0.0625001", "1E-7", "1.25E-9", "1234567.125", "0.000030517578125", "16777216.5",
+                "0.6666666666666666666666666667", "1.00000000000000000001"]
+LONG_OFFSETS = ["-273.15000001", "0.3333333333333333333333333333", "-1234567.875", "1E-9", "123456789012345678", "-0.0000152587890625",
+                "2.718281828459045235"]
+LONG_INITIALS = ["9223372036854788153", "18446744073709551615", "1234567890123456789", "0.3333333333333333333333333333", "123456.7890625",
+                 "-9223372036854775808", "1.0000001"]
+
+
+def long_numbers(rng, d):
+    """35 %: some signals of the matrix (of the frames and of the PDUs) get a factor, an offset, limits or a start value with many
+    significant digits (LONG_*), anywhere in the matrix: next to 64 bit signals, in multiplexed frames, in one signal or in all."""
+    if rng.random() >= 0.35:
+        return d
+    sigs = [sg for f in d["frames"] for sg in f["signals"] if sg.get("mux") != "Multiplexor" and not sg["name"].startswith("Header_")]
+    sigs += [sg for f in d["frames"] for p in f.get("pdus", []) for sg in p["signals"]]
+    if not sigs:
+        return d
+    p = rng.choice([0.3, 0.6, 1.0])
+    chosen = [sg for sg in sigs if rng.random() < p] or [rng.choice(sigs)]
+    for sg in chosen:
+        r = rng.random()
+        if r < 0.75:
+            sg["factor"] = rng.choice(LONG_FACTORS)
+        if r > 0.55:
+            sg["offset"] = rng.choice(LONG_OFFSETS)
+        if rng.random() < 0.3:
+            sg["min"], sg["max"] = rng.choice([("0", "18446744073709551615"), ("-0.3333333333333333333333333333", "12345678.90625"),
+                                               ("0.001953125", "127.998046875")])
+        if rng.random() < 0.4:
+            sg["initial"] = rng.choice(LONG_INITIALS)
+    d["long_numbers"] = True
+    return d
 
 
 def gen_rare(rng, d):
@@ -384,6 +422,15 @@ def build(d):
     db = M.build(d, update=d.get("opts", {}).get("update", True))
     if d.get("rare") is not None:
         build_rare(db, d)
+    if d.get("long_numbers"):
+        for f, fd in zip(db.frames, d["frames"]):
+            for s, sd in zip(f.signals, fd["signals"]):
+                if "initial" in sd:
+                    s.initial_value = decimal.Decimal(sd["initial"])
+            for pdu, pd in zip(f.pdus, fd.get("pdus", [])):
+                for s, sd in zip(pdu.signals, pd["signals"]):
+                    if "initial" in sd:
+                        s.initial_value = decimal.Decimal(sd["initial"])
     for s in d.get("free", []):
         db.add_signal(cm.Signal(s["name"], size=s["size"]))
     if d.get("attrs"):
@@ -494,7 +541,8 @@ def plain(v):
         return sorted((k, plain(x)) for k, x in v.items())
     if isinstance(v, (list, tuple)):
         return [plain(x) for x in v]
-    return str(v.raw_value) if hasattr(v, "raw_value") else str(v)
+    # (the raw value, the physical value as the matrix scales it - raw * factor + offset in Decimal arithmetic - and the named value)
+    return [str(getattr(v, k, None)) for k in ("raw_value", "phys_value", "named_value")] if hasattr(v, "raw_value") else str(v)
 
 
 def decode_all(db):
@@ -502,9 +550,16 @@ def decode_all(db):
     for f in db.frames:
         if f.is_complex_multiplexed:
             continue
+        d = None
         try:
             d = f.decode(bytes([0xA5, 0x3C, 0x96, 0x0F, 0xF0, 0x55, 0xAA, 0x81] * 8)[:f.size])
             out.append(plain(d))
+        except Exception as e:  # noqa
+            out.append("EXC:" + type(e).__name__)
+        # ... and back: the physical values just decoded, encoded again (phys2raw: (value - offset) / factor in Decimal arithmetic)
+        try:
+            phys = {k: v.phys_value for k, v in d.items() if hasattr(v, "phys_value")} if isinstance(d, dict) else None
+            out.append(None if phys is None else bytes(f.encode(phys)).hex())
         except Exception as e:  # noqa
             out.append("EXC:" + type(e).__name__)
         # ... and through the matrix, which looks the frame up by its identifier
@@ -552,8 +607,17 @@ def lookups(db):
 def process_state():
     """what decoding depends on besides the matrix: the arithmetic context of the decimal module"""
     import decimal
-    ctx = decimal.getcontext()
-    return [ctx.prec, ctx.rounding, ctx.Emin, ctx.Emax, ctx.capitals, ctx.clamp, sorted(str(t) for t, on in ctx.traps.items() if on)]
+    import locale
+
+    def context(ctx):
+        return [ctx.prec, ctx.rounding, ctx.Emin, ctx.Emax, ctx.capitals, ctx.clamp, sorted(str(t) for t, on in ctx.traps.items() if on)]
+    # ... this thread's context, the template of the contexts of threads yet to start, and what the arithmetic does with them (a
+    # quotient and a product that need all 28 digits); the settings number <-> text conversions and file access read
+    third = decimal.Decimal(1) / decimal.Decimal(3)
+    return [context(decimal.getcontext()), context(decimal.DefaultContext), str(third), str(third * decimal.Decimal(2 ** 64 - 1)),
+            str(decimal.Decimal("0.001953125") * decimal.Decimal(2 ** 63 + 12345) + decimal.Decimal("0.1")),
+            locale.setlocale(locale.LC_NUMERIC), locale.setlocale(locale.LC_CTYPE), os.getcwd(), sys.getrecursionlimit(),
+            hashlib.sha256(repr(sorted(os.environ.items())).encode()).hexdigest()]
 
 
 # what CanMatrix keeps to answer lookups faster (filled by the lookups themselves; judged through `lookups`, not as content)
